@@ -16,10 +16,10 @@ from fractions import Fraction
 from . import common, lib_scheme as S, lib_estimate as E
 
 SET = 'thermochem'
-OBLIGATIONS_C04 = ['PIPE_driver_computes_pipeline', 'PIPE_wsum_depends_on_counts_only', 'PIPE_value_depends_on_counts_only', 'PIPE_outcome_depends_on_counts_only',
+OBLIGATIONS_C04 = ['PIPE_driver_computes_pipeline', 'PIPE_wsum_depends_on_counts_only', 'PIPE_value_depends_on_counts_only', 'PIPE_value_depends_on_counts_only_full_fails', 'PIPE_outcome_depends_on_counts_only',
                    'PIPE_mixture_additive', 'PIPE_mixture_failure', 'PIPE_mixture_estimate_iff', 'PIPE_mixture_as_numbered_by_rdkit',
-                   'PIPE_mixture_quadratic', 'PIPE_mixture_quadratic_additive_full_fails', 'PIPE_dimensional_sum', 'PIPE_dimensional']
-OBLIGATIONS_C03 = ['PIPE_driver_computes_pipeline', 'PIPE_relabel_invariant', 'PIPE_spelling_independent', 'PIPE_spelling_lookup', 'PIPE_spelling_group_order',
+                   'PIPE_mixture_quadratic', 'PIPE_mixture_quadratic_symmetric', 'PIPE_mixture_quadratic_additive_full_fails', 'PIPE_dimensional_sum', 'PIPE_dimensional']
+OBLIGATIONS_C03 = ['PIPE_driver_computes_pipeline', 'PIPE_relabel_invariant', 'PIPE_ring_presentation_invariant_partial', 'PIPE_relabel_quadratic', 'PIPE_spelling_independent', 'PIPE_spelling_lookup', 'PIPE_spelling_group_order',
                    'PIPE_group_keys_canonical', 'PIPE_spelling_raw_string_partial', 'PIPE_spelling_raw_string_full_fails',
                    'PIPE_dimensional_same', 'PIPE_dimensional_relabel']
 FLAGS = (None, True)            # S/R and G/RT plain, and relative to the elements
